@@ -7,8 +7,8 @@ use fe2o3_amqp::link::RecvError;
 use fe2o3_amqp::link::receiver::CreditMode;
 use fe2o3_amqp::link::delivery::DeliveryInfo;
 use fe2o3_amqp::{Connection, Receiver, Session};
-use fe2o3_amqp_types::definitions::{Handle, ReceiverSettleMode};
-use fe2o3_amqp_types::performatives::{Flow, Performative};
+use fe2o3_amqp_types::definitions::{Handle, ReceiverSettleMode, Role};
+use fe2o3_amqp_types::performatives::{Disposition, Flow, Performative};
 use serde_amqp::Value;
 use serde_json::{json, Value as J};
 
@@ -478,6 +478,101 @@ fn evaluate(case: &Case) -> (Vec<StepOut>, Option<(String, String)>) {
     }
 }
 
+/// "re-issues credit early enough that a sender who respects credit can deliver an arbitrarily long
+/// stream without stalling": a real Receiver in Auto(n) — with auto-accept or with the application
+/// accepting each delivery, on a session whose link-to-session queue holds `buffer` frames — against
+/// a scripted sender that sends `total` deliveries, each only when the credit it was last told
+/// allows it.  Returns (deliveries the application received, deliveries the sender could send).
+pub fn run_stream(auto_n: u32, buffer: usize, auto_accept: bool, total: u32, idc: u32, second: bool) -> Result<(u32, u32), String> {
+    let rt = paused_runtime();
+    rt.block_on(async move {
+        let (cio, pio) = tokio::io::duplex(1 << 20);
+        let mut peer = Peer::new(pio);
+        let client = tokio::spawn(async move {
+            let mut conn = Connection::builder().container_id("c09s").open_with_stream(cio).await.map_err(|e| format!("open: {:?}", e))?;
+            let mut session = Session::builder().buffer_size(buffer).begin(&mut conn).await.map_err(|e| format!("begin: {:?}", e))?;
+            let mut receiver = Receiver::builder()
+                .name("c09-stream")
+                .source("q")
+                .credit_mode(CreditMode::Auto(auto_n))
+                .auto_accept(auto_accept)
+                .receiver_settle_mode(if second { ReceiverSettleMode::Second } else { ReceiverSettleMode::First })
+                .attach(&mut session)
+                .await
+                .map_err(|e| format!("attach: {:?}", e))?;
+            let mut got = 0u32;
+            while got < total {
+                match tokio::time::timeout(Duration::from_secs(3), receiver.recv::<Value>()).await {
+                    Err(_) => break,
+                    Ok(Err(e)) => return Err(format!("recv: {:?}", e)),
+                    Ok(Ok(d)) => {
+                        got += 1;
+                        if !auto_accept {
+                            receiver.accept(&d).await.map_err(|e| format!("accept: {:?}", e))?;
+                        }
+                    }
+                }
+            }
+            Ok::<_, String>((got, conn, session, receiver))
+        });
+        peer.accept_open(&PeerOpen::default()).await.map_err(|e| format!("peer open: {:?}", e))?;
+        peer.accept_begin(0, 0, 100_000, 100_000).await.map_err(|e| format!("peer begin: {:?}", e))?;
+        peer.accept_attach(0, 0, Some(idc), if second { ReceiverSettleMode::Second } else { ReceiverSettleMode::First }).await.map_err(|e| format!("peer attach: {:?}", e))?;
+        let mut dc = idc; // the sender's delivery-count
+        let mut limit = idc; // delivery-count up to which it may send (serial arithmetic)
+        let mut sent = 0u32;
+        peer.recv_timeout = Duration::from_millis(1500);
+        'outer: while sent < total {
+            // credit left?
+            if limit.wrapping_sub(dc) as i32 > 0 {
+                let msg = message_bytes(sent as u64 + 1, 16);
+                let t = transfer(0, Some(sent), Some(sent.to_be_bytes().to_vec()), Some(false), false);
+                peer.send(0, Performative::Transfer(t), &msg).await.map_err(|e| format!("{:?}", e))?;
+                dc = dc.wrapping_add(1);
+                sent += 1;
+                continue;
+            }
+            // wait for more credit (answering dispositions in mode second on the way)
+            loop {
+                match peer.recv().await {
+                    Ok(Incoming::Frame { performative: Performative::Flow(f), .. }) => {
+                        if f.handle.is_some() {
+                            if let (Some(d), Some(c)) = (f.delivery_count, f.link_credit) {
+                                limit = d.wrapping_add(c);
+                                continue 'outer;
+                            }
+                        }
+                    }
+                    Ok(Incoming::Frame { performative: Performative::Disposition(d), .. }) => {
+                        if second && !d.settled {
+                            let echo = Disposition { role: Role::Sender, first: d.first, last: d.last, settled: true, state: d.state.clone(), batchable: false };
+                            let _ = peer.send(0, Performative::Disposition(echo), &[]).await;
+                        }
+                    }
+                    Ok(_) => {}
+                    Err(_) => break 'outer, // no credit for 1.5 virtual seconds: the stream has stalled
+                }
+            }
+        }
+        // keep settling while the application catches up
+        peer.recv_timeout = Duration::from_millis(500);
+        loop {
+            match peer.recv().await {
+                Ok(Incoming::Frame { performative: Performative::Disposition(d), .. }) => {
+                    if second && !d.settled {
+                        let echo = Disposition { role: Role::Sender, first: d.first, last: d.last, settled: true, state: d.state.clone(), batchable: false };
+                        let _ = peer.send(0, Performative::Disposition(echo), &[]).await;
+                    }
+                }
+                Ok(_) => {}
+                Err(_) => break,
+            }
+        }
+        let (got, _c, _s, _r) = client.await.map_err(|e| format!("join: {:?}", e))??;
+        Ok((got, sent))
+    })
+}
+
 pub fn main(opts: &Opts) {
     let mut report = Report::new(
         "C09",
@@ -488,6 +583,22 @@ pub fn main(opts: &Opts) {
     );
     if let Some(path) = &opts.replay {
         let j: J = serde_json::from_str(&std::fs::read_to_string(path).expect("read replay")).expect("json");
+        if let Some(c) = j.get("stream") {
+            let g = |k: &str| c.get(k).and_then(|x| x.as_u64()).unwrap_or(0);
+            let b = |k: &str| c.get(k).and_then(|x| x.as_bool()).unwrap_or(false);
+            let r = run_stream(g("auto") as u32, g("buffer") as usize, b("auto_accept"), g("total") as u32, g("idc") as u32, b("second"));
+            println!("{:?}", r);
+            match r {
+                Ok((got, _)) if got as u64 == g("total") => {
+                    println!("REPLAY: property holds on this scenario");
+                    std::process::exit(0);
+                }
+                _ => {
+                    println!("REPLAY: property violated [stream-stalls]");
+                    std::process::exit(1);
+                }
+            }
+        }
         let case = Case::from_json(j.get("case").unwrap_or(&j)).expect("case");
         let (outs, v) = evaluate(&case);
         for (l, o) in case.lines().iter().zip(render_impl(&outs)) {
@@ -617,6 +728,38 @@ pub fn main(opts: &Opts) {
         }
     } else {
         report.notes.push("model driver not available: correspondence skipped".into());
+    }
+    // streams: credit is re-issued in time, whatever the queue between link and session holds
+    let mut streams: Vec<(u32, usize, bool, u32, bool)> = vec![];
+    for &n in &[1u32, 2, 3, 7, 50] {
+        for &b in &[1usize, 2, 3, 2048] {
+            for &aa in &[true, false] {
+                streams.push((n, b, aa, *rng.pick(&[0u32, 5, u32::MAX - 2]), rng.chance(1, 3)));
+            }
+        }
+    }
+    for (n, b, aa, idc, second) in streams {
+        let total = 3 * n + 5;
+        report.evaluations += 1;
+        report.count("stream_cases");
+        report.nontrivial_case(fnv(&format!("stream{}/{}/{}/{}/{}", n, b, aa, idc, second)));
+        let replay = json!({"property": "C09", "module": "recvcredit", "stream": {"auto": n, "buffer": b, "auto_accept": aa, "idc": idc, "second": second, "total": total}});
+        match run_stream(n, b, aa, total, idc, second) {
+            Ok((got, sent)) => {
+                if got < total {
+                    report.finding(Finding {
+                        kind: "violation",
+                        key: "stream-stalls".into(),
+                        description: format!(
+                            "Auto({}) receiver (auto-accept {}, rcv-settle-mode {}, session buffer_size {}, initial delivery-count {}): a sender that respects credit could send only {} of {} deliveries and the application received {}: credit was not re-issued",
+                            n, aa, if second { "second" } else { "first" }, b, idc, sent, total, got
+                        ),
+                        replay,
+                    });
+                }
+            }
+            Err(e) => report.finding(Finding { kind: "violation", key: "stream-scenario-failed".into(), description: e, replay }),
+        }
     }
     report.write(&opts.report);
     println!("recvcredit: {} cases, {} non-trivial, {} findings", report.evaluations, report.nontrivial.len(), report.findings.len());
